@@ -412,3 +412,97 @@ Proof.
   - reflexivity.
   - vm_compute. reflexivity.
 Qed.
+
+(* ================================================================ dropped gates in controlled_by form *)
+(* Base/SemCtrl.cembed_is_embed_ctrl: cembed n cs ts M = embed n (cs ++ ts) (diag(1, ..., 1, M)), and
+   diag(1, ..., 1, M) is an isometry when M is.  So a gate in controlled_by form (C01: flag true, operator
+   cembed n controls targets M, M of size 2^|targets|) with M^+ M = 1 also qualifies as a dropped gate. *)
+From QV Require Import Base.SemCtrl.
+
+Theorem controlled_unitary_gates_qualify :
+  forall (T : Type) (K : ops T) (cj : T -> T), semiring K -> conj_ok K cj ->
+  forall (n : nat) (mg : Trace.gate -> C01.Model.gate (T:=T)) g cs ts M,
+    mg g = (true, cs, ts, M) -> gate_wf n (mg g) ->
+    wf_mat (length ts) M -> mmul K (madj K cj (length ts) M) M = eye K (2 ^ length ts) ->
+    embeds_unitary K cj n mg g.
+Proof. intros T K cj HK HC n mg g cs ts M. exact (ctrl_gate_embeds_unitary K cj HK HC n mg g cs ts M). Qed.
+Print Assumptions controlled_unitary_gates_qualify.
+
+(* every well-formed gate, plain or controlled_by, whose own matrix is an isometry *)
+Theorem unitary_gates_qualify :
+  forall (T : Type) (K : ops T) (cj : T -> T), semiring K -> conj_ok K cj ->
+  forall (n : nat) (mg : Trace.gate -> C01.Model.gate (T:=T)) g,
+    gate_wf n (mg g) -> gate_isometry K cj (mg g) -> embeds_unitary K cj n mg g.
+Proof. intros T K cj HK HC n mg g. exact (isometry_gate_embeds_unitary K cj HK HC n mg g). Qed.
+Print Assumptions unitary_gates_qualify.
+
+(* the light-cone theorems with the premise on the dropped gates stated on the gates themselves
+   (gate_isometry: the gate's matrix is well shaped and M^+ M = 1), for gates of EITHER form *)
+Theorem light_cone_reduced_state_matrices_ctrl :
+  forall (T : Type) (K : ops T) (cj : T -> T), semiring K -> conj_ok K cj ->
+  forall (n : nat) (mg : Trace.gate -> C01.Model.gate (T:=T)) (c : list Trace.gate) (S : list nat) (rho : mat T),
+    Forall (mvalid n mg gqs) c ->
+    (forall g, In g (lc_dropped c S) -> gate_isometry K cj (mg g)) ->
+    (forall q, In q S -> q < n) -> wf_mat n rho ->
+    reduced K n S (trun (dact K cj n mg) c rho) = reduced K n S (trun (dact K cj n mg) (snd (lc_sweep c S)) rho).
+Proof. intros T K cj HK HC n mg c S rho. exact (light_cone_reduced_ctrl_proof K cj HK HC n mg c S rho). Qed.
+Print Assumptions light_cone_reduced_state_matrices_ctrl.
+
+Theorem light_cone_reindexed_reduced_state_ctrl :
+  forall (T : Type) (K : ops T) (cj : T -> T), semiring K -> conj_ok K cj ->
+  forall (n : nat) (mg : Trace.gate -> C01.Model.gate (T:=T)) (c : list Trace.gate) (S : list nat) (rho : mat T),
+    Forall (mvalid n mg gqs) c ->
+    (forall g, In g (lc_dropped c S) -> gate_isometry K cj (mg g)) ->
+    (forall q, In q S -> q < n) -> (forall g q, In g c -> In q (gqs g) -> q < n) -> wf_mat n rho ->
+    let cone := fst (lc_sweep c S) in
+    let kept' := map (fun g => relabel cone (mg g)) (snd (lc_sweep c S)) in
+    let S' := map (fun q => C01.Model.index_of q cone) S in
+    reduced K n S (trun (dact K cj n mg) c rho)
+    = reduced K (length cone) S' (sandwich K cj (length cone) (circ_op K (length cone) kept') (reduced K n cone rho)).
+Proof. intros T K cj HK HC n mg c S rho. exact (light_cone_reindexed_ctrl_proof K cj HK HC n mg c S rho). Qed.
+Print Assumptions light_cone_reindexed_reduced_state_ctrl.
+
+(* 3 qubits, S = [0]: gate 1 is sU on target 1 controlled_by qubit 2 (control above the target, so
+   controls ++ targets = [2; 1] is not ascending), gate 3 is the plain unitary sU on qubit 2; both are
+   dropped; gates 0 and 2 (sA, not unitary, on qubit 0) are kept *)
+Definition ex_mg_ctrl (g : Trace.gate) : C01.Model.gate (T:=Zi) :=
+  match gid g with
+  | 1 => (true, [2], [1], sU)
+  | 3 => (false, [], [2], sU)
+  | _ => (false, [], gqs g, sA)
+  end.
+Definition ex_lc_ctrl : list Trace.gate :=
+  [mkGate 0 [0] KOrd; mkGate 1 [2; 1] KOrd; mkGate 2 [0] KOrd; mkGate 3 [2] KOrd].
+Example light_cone_ctrl_hyps :
+  Forall (mvalid 3 ex_mg_ctrl gqs) ex_lc_ctrl
+  /\ lc_dropped ex_lc_ctrl [0] = [mkGate 1 [2; 1] KOrd; mkGate 3 [2] KOrd]
+  /\ (forall g, In g (lc_dropped ex_lc_ctrl [0]) -> gate_isometry Ziops zi_conj (ex_mg_ctrl g))
+  /\ (forall g q, In g ex_lc_ctrl -> In q (gqs g) -> q < 3)
+  /\ gate_op Ziops 3 (ex_mg_ctrl (mkGate 1 [2; 1] KOrd)) = cembed Ziops 3 [2] [1] sU
+  /\ fst (lc_sweep ex_lc_ctrl [0]) = [0]
+  /\ reduced Ziops 3 [0] (trun (dact Ziops zi_conj 3 ex_mg_ctrl) ex_lc_ctrl sRho)
+      = reduced Ziops 3 [0] (trun (dact Ziops zi_conj 3 ex_mg_ctrl) (snd (lc_sweep ex_lc_ctrl [0])) sRho)
+  /\ reduced Ziops 3 [0] (trun (dact Ziops zi_conj 3 ex_mg_ctrl) ex_lc_ctrl sRho)
+      = reduced Ziops 1 [0] (sandwich Ziops zi_conj 1
+          (circ_op Ziops 1 (map (fun g => relabel [0] (ex_mg_ctrl g)) (snd (lc_sweep ex_lc_ctrl [0]))))
+          (reduced Ziops 3 [0] sRho))
+  /\ trun (dact Ziops zi_conj 3 ex_mg_ctrl) ex_lc_ctrl sRho
+      <> trun (dact Ziops zi_conj 3 ex_mg_ctrl) (snd (lc_sweep ex_lc_ctrl [0])) sRho
+  (* the controlled gate alone already changes the state, and changes the reduced state on its own qubits *)
+  /\ dact Ziops zi_conj 3 ex_mg_ctrl (mkGate 1 [2; 1] KOrd) sRho <> sRho
+  /\ reduced Ziops 3 [1] (dact Ziops zi_conj 3 ex_mg_ctrl (mkGate 1 [2; 1] KOrd) sRho) <> reduced Ziops 3 [1] sRho.
+Proof.
+  split; [|split; [|split; [|split; [|split; [|split; [|split; [|split; [|split; [|split]]]]]]]]].
+  - unfold ex_lc_ctrl, mvalid, gate_wf, ex_mg_ctrl. fin.
+  - reflexivity.
+  - intros g Hg. change (lc_dropped ex_lc_ctrl [0]) with [mkGate 1 [2; 1] KOrd; mkGate 3 [2] KOrd] in Hg.
+    destruct Hg as [<-|[<-|[]]]; (split; [vm_compute; repeat constructor|vm_compute; reflexivity]).
+  - unfold ex_lc_ctrl. fin.
+  - reflexivity.
+  - reflexivity.
+  - vm_compute. reflexivity.
+  - vm_compute. reflexivity.
+  - vm_compute. discriminate.
+  - vm_compute. discriminate.
+  - vm_compute. discriminate.
+Qed.
